@@ -872,3 +872,18 @@ pub fn builder_apply(
             .unwrap_or_else(|| "panic".to_string())
     })
 }
+
+static LEVEL_ONE_MAX_BYTES: std::sync::atomic::AtomicU64 = std::sync::atomic::AtomicU64::new(0);
+
+/// Override the size limit of level 1 (deeper levels get 10x each) for every database of this
+/// process; 0 restores the built-in 10 MiB.
+pub fn set_level_one_max_bytes(bytes: u64) {
+    LEVEL_ONE_MAX_BYTES.store(bytes, std::sync::atomic::Ordering::SeqCst);
+}
+
+pub(crate) fn level_one_max_bytes() -> Option<u64> {
+    match LEVEL_ONE_MAX_BYTES.load(std::sync::atomic::Ordering::SeqCst) {
+        0 => None,
+        bytes => Some(bytes),
+    }
+}
